@@ -8,6 +8,7 @@ import (
 	"os"
 	"path/filepath"
 	"sort"
+	"strings"
 	"sync"
 	"sync/atomic"
 	"time"
@@ -80,6 +81,7 @@ type transWorld struct {
 	addrA, addrB string
 	opCtx        vivid.ActorContext
 	opCtxB       vivid.ActorContext // an actor with the same path as the operator, on system B
+	opLong       vivid.ActorContext // an operator whose path is longer than 255 bytes
 	killedSeenB  []vivid.ActorRef
 	mu           sync.Mutex
 	got          map[string][]any // actor name -> messages received
@@ -150,14 +152,21 @@ func (w *transWorld) spawn(sys *actor.System, name, mode string) (vivid.ActorRef
 	}), vivid.WithActorName(name))
 }
 
-func newTransWorld() (*transWorld, error) {
+func newTransWorld(advertiseDiffers bool) (*transWorld, error) {
 	ensureRmsg()
 	w := &transWorld{got: map[string][]any{}, dead: map[string]bool{}}
-	mk := func() (*actor.System, string, error) {
+	mk := func(advertiseDiffers bool) (*actor.System, string, error) {
 		for try := 0; try < 5; try++ {
-			addr := fmt.Sprintf("127.0.0.1:%d", freePort())
+			port := freePort()
+			addr := fmt.Sprintf("127.0.0.1:%d", port)
+			remoting := vivid.WithActorSystemRemoting(addr)
+			if advertiseDiffers {
+				// the node listens on one address and is known to the others under another one (NAT, 0.0.0.0, a host name)
+				addr = fmt.Sprintf("localhost:%d", port)
+				remoting = vivid.WithActorSystemRemoting(fmt.Sprintf("0.0.0.0:%d", port), addr)
+			}
 			sys := actor.NewSystem(vivid.WithActorSystemContext(context.Background()), vivid.WithActorSystemLogger(silentLogger),
-				vivid.WithActorSystemStopTimeout(3*time.Second), vivid.WithActorSystemRemoting(addr), vivid.WithActorSystemCodec(jsonCodec{}))
+				vivid.WithActorSystemStopTimeout(3*time.Second), remoting, vivid.WithActorSystemCodec(jsonCodec{}))
 			if err := sys.Start(); err == nil {
 				return sys, addr, nil
 			}
@@ -165,10 +174,10 @@ func newTransWorld() (*transWorld, error) {
 		return nil, "", fmt.Errorf("cannot start system")
 	}
 	var err error
-	if w.a, w.addrA, err = mk(); err != nil {
+	if w.a, w.addrA, err = mk(false); err != nil {
 		return nil, err
 	}
-	if w.b, w.addrB, err = mk(); err != nil {
+	if w.b, w.addrB, err = mk(advertiseDiffers); err != nil {
 		return nil, err
 	}
 	started := make(chan vivid.ActorContext, 1)
@@ -187,6 +196,22 @@ func newTransWorld() (*transWorld, error) {
 		return nil, err
 	}
 	w.opCtx = <-started
+	startedL := make(chan vivid.ActorContext, 1)
+	if _, err := w.a.ActorOf(vivid.ActorFN(func(ctx vivid.ActorContext) {
+		switch m := ctx.Message().(type) {
+		case *vivid.OnLaunch:
+			startedL <- ctx
+		case *vivid.OnKilled:
+			if m.Ref != nil && !m.Ref.Equals(ctx.Ref()) {
+				w.mu.Lock()
+				w.killedSeen = append(w.killedSeen, m.Ref)
+				w.mu.Unlock()
+			}
+		}
+	}), vivid.WithActorName("operator-"+strings.Repeat("long-", 56))); err != nil {
+		return nil, err
+	}
+	w.opLong = <-startedL
 	startedB := make(chan vivid.ActorContext, 1)
 	if _, err := w.b.ActorOf(vivid.ActorFN(func(ctx vivid.ActorContext) {
 		switch m := ctx.Message().(type) {
@@ -240,13 +265,20 @@ func (w *transWorld) place(loc, name, mode string) (sys *actor.System, ref vivid
 func (w *transWorld) run(tc *transCase) (string, error) {
 	n := w.seq.Add(1)
 	c := tc.Case
+	tname := fmt.Sprintf("t%d", n)
+	if c.Hist == "long-paths" {
+		// operator and target have paths of about 290 bytes
+		saved := w.opCtx
+		w.opCtx = w.opLong
+		defer func() { w.opCtx = saved }()
+		tname = fmt.Sprintf("t%d-%s", n, strings.Repeat("deep-", 56))
+	}
 	if c.By == "system" {
 		// the operation is performed through the ActorSystem handle instead of an actor's context
 		saved := w.opCtx
 		w.opCtx = w.a.Context
 		defer func() { w.opCtx = saved }()
 	}
-	tname := fmt.Sprintf("t%d", n)
 	mode := "echo"
 	if c.Op == "pipe-fail" {
 		mode = "silent"
@@ -499,7 +531,7 @@ func checkC15(c *core.Ctx) {
 	var traces []*Trace
 	var setupErr error
 	for rep := 0; rep < reps && setupErr == nil; rep++ {
-		w, err := newTransWorld()
+		w, err := newTransWorld(rep%2 == 0) // system B is advertised under another address than it binds to in every other world
 		if err != nil {
 			c.Broken("cannot set up the two systems: %v", err)
 			return
@@ -517,7 +549,7 @@ func checkC15(c *core.Ctx) {
 			ev := map[string]any{"e": "Cell", "op": tc.Case.Op, "target": tc.Case.Target, "fwd": tc.Case.Fwd, "flavour": tc.Case.Flavour, "h": tc.Case.Hist, "by": tc.Case.By,
 				"s": out, "d": tc.Expected, "v": int(w.decodeFails.Load() - before)}
 			c.Add("evaluations", 1)
-			traces = append(traces, &Trace{Events: []map[string]any{ev}, Class: tc.Case.Op + "-" + tc.Case.Target + map[string]string{"recreated": "-recreated", "after-failed-encode": "-after-failed-encode"}[tc.Case.Hist], Name: fmt.Sprintf("%s/%s/%s/%s/%s/%s#%d", tc.Case.Op, tc.Case.Target, tc.Case.Fwd, tc.Case.Flavour, tc.Case.Hist, tc.Case.By, rep), Scenario: tc})
+			traces = append(traces, &Trace{Events: []map[string]any{ev}, Class: tc.Case.Op + "-" + tc.Case.Target + map[string]string{"recreated": "-recreated", "after-failed-encode": "-after-failed-encode", "long-paths": "-long-paths"}[tc.Case.Hist], Name: fmt.Sprintf("%s/%s/%s/%s/%s/%s#%d", tc.Case.Op, tc.Case.Target, tc.Case.Fwd, tc.Case.Flavour, tc.Case.Hist, tc.Case.By, rep), Scenario: tc})
 		}
 		w.close()
 	}
